@@ -95,6 +95,7 @@ class Ctx:
             for f in self.facts.fns:
                 if f.eff_pub or f.trait or f.kind == 'Closure':
                     keep.add(f)
+            keep |= set(getattr(self.A, 'hdr_helpers', ()))     # a helper that holds the header selection stays a call (it is a header read wherever it is called)
             self._keep = keep
         return self._keep
 
@@ -109,6 +110,8 @@ class Ctx:
         if key not in self._views:
             import inline
             keep = self.keep_set() - {fn}
+            if fn is self.A.get('DBInner::meta'):
+                keep = keep - set(getattr(self.A, 'hdr_helpers', ()))      # ... except inside header selection itself, which is judged with it folded in
             if keep_adts:
                 from facts import last_seg
                 keep = keep | {g for g in self.facts.fns if g.self_adt and last_seg(g.self_adt) in keep_adts}
